@@ -8,7 +8,7 @@ class PROP(E2E):
     id = "C02"
     rule = ("end-to-end through the real client and the real TCP / RTU-over-TCP / serial RTU (pty) servers, stage by stage under re-chunking and directly over loopback sockets and a pty: every response variant (payload lengths empty..maximal, "
             "bit patterns around byte boundaries), all 256 exception code values (ExceptionCode::new(c) and raw Custom(c)), for typed and raw custom "
-            "requests, random chunkings in both directions and all compositions of short frames.  Oracle: the server writes exactly the spec "
+            "requests, random chunkings in both directions and all compositions of short frames; sequences of exchanges on one client whose (fragmented) replies differ in length.  Oracle: the server writes exactly the spec "
             "encoding under the request's header; the client returns the value padded to whole bytes / the same numeric exception code; typed bit "
             "reads return exactly the requested count.  non-trivial = distinct (request, reply, chunking) with a reply")
 
@@ -60,11 +60,42 @@ class PROP(E2E):
                 yield dict(proto=proto, slave=rng.randrange(256), req=req, reply=reply, typed=typed,
                            allcomp=(rng.random() < 0.02 and mb.spec_req_size(req) <= 5))
 
+    def cases(self, rng, tier):
+        cs = super().cases(rng, tier)
+        # one client, several exchanges in a row whose replies differ in length (long fragmented reply, then a short one: exception,
+        # write echo; and the other way round): every call gets the reply the service produced for it
+        shapes = [(("RHR", 10, 20), ("RHR", list(range(100, 120)))), (("RC", 0, 100), ("RC", [True, False] * 52)), (("WSR", 7, 9), ("WSR", 7, 9)),
+                  (("RHR", 1, 1), ("RHR", [0xBEEF])), (("RIR", 5, 60), ("RIR", list(range(60)))), (("WMR", 3, [1, 2, 3]), ("WMR", 3, 3)), (("RSI",), ("RSI", 9, True, b"abcdefgh"))]
+        seqs = []
+        for _ in range(150 if tier == "quick" else 1500):
+            proto = rng.choice(["tcp", "rtu"])
+            slave = rng.randrange(1, 248)
+            ops, wants = [], []
+            for j in range(rng.randrange(2, 5)):
+                req, rsp = rng.choice(shapes)
+                exc = rng.random() < 0.25
+                pdu = cligen.exc_pdu(mb.req_fc(req), rng.randrange(1, 12)) if exc else mb.spec_rsp_pdu(rsp)
+                fr = cligen.frame(proto, j, slave, pdu)
+                parts = rng.choice([[fr], mb.chunkings(fr, rng, 1)[0], [fr[:3], fr[3:]], [fr[:k] for k in (4,)] + [fr[4:]]]) if len(fr) > 4 else [fr]
+                ops.append(cligen.call_op(req, R=mb.rscript([p for p in parts if len(p)])))
+                wants.append("EX:%d" % pdu[1] if exc else "OK:" + mb.show_rsp(mb.pad_rsp(rsp)))
+            seqs.append(Case(cligen.cli_line(proto, slave, ops), {"stage": "seq", "wants": wants, "proto": proto}))
+        step = max(1, len(cs) // (len(seqs) + 1))
+        for i, d in enumerate(seqs):
+            cs.insert(min(len(cs), (i + 1) * step + i), d)
+        return cs
+
     def oracle(self, c):
         m = c.meta
         st = m.get("stage", 0)
         if "PANIC" in (c.impl or ""):
             return "panic"
+        if st == "seq":
+            rs = [cligen.res_and_w(x)[0] for x in cligen.split_results(c.impl)]
+            for i, (got, want) in enumerate(zip(rs + ["<missing>"] * len(m["wants"]), m["wants"])):
+                if got != want:
+                    return "exchange %d of %d on one client: the caller got %s, the reply sent was %s" % (i + 1, len(m["wants"]), got[:70], want[:70])
+            return None
         if st == "direct":
             obs = self.direct_obs(c)
             if len(obs) != len(m["ops"]):
@@ -95,4 +126,4 @@ class PROP(E2E):
         return None
 
     def nontrivial(self, c):
-        return c.meta.get("stage", 0) in (1, 2, "direct")
+        return c.meta.get("stage", 0) in (1, 2, "direct", "seq")
